@@ -189,6 +189,8 @@ class Screen(_raw_display_base.Screen):
             self._rows_used = None
         else:
             self._rows_used = 0
+        # a new session starts on the row the terminal cursor is on
+        self._cy = 0
 
         # the terminal may have lost the G1 designation since the last session (leaving the alternate
         # buffer restores the saved cursor including its character sets): send it again on the next draw
